@@ -323,6 +323,8 @@ class Sim:
             for name in fwd:
                 if name in loc:
                     kw[name] = loc[name]
+        if s.get("tokx"):
+            kw["tok"] = f"{loc.get('tok')}{s['tokx']}"
         return s["event"], [dec(a) for a in (s.get("args") or [])], kw
 
     def _send_sync(self, sm, s, q, tag, loc):
